@@ -491,8 +491,12 @@ class FixedArray
 
         if (isMaskedReference())
         {
+            // The mask is as long as this reference or (non-strict match)
+            // as long as the array it refers to.
+            const bool unmaskedMask = (size_t) mask.len() != len;
             for (size_t i = 0; i < len; ++i)
-                _ptr[raw_ptr_index(i)*_stride] = data;
+                if (mask[unmaskedMask ? raw_ptr_index(i) : i])
+                    _ptr[raw_ptr_index(i)*_stride] = data;
         }
         else
         {
